@@ -16,7 +16,6 @@ import (
 	"time"
 
 	"github.com/mgtv-tech/redis-GunYu/config"
-	"github.com/mgtv-tech/redis-GunYu/pkg/redis"
 	"github.com/mgtv-tech/redis-GunYu/pkg/redis/checkpoint"
 	"github.com/mgtv-tech/redis-GunYu/pkg/redis/client"
 	usync "github.com/mgtv-tech/redis-GunYu/pkg/sync"
@@ -27,7 +26,9 @@ import (
 )
 
 // ---------------------------------------------------------------------------
-// H-input: the real RedisInput.Run loop (fetchInput, syncMeta, pSync, syncData,
+// H-input: the real syncer (NewSyncer + RunLeader: newOutput with its start-up
+// UpdateCheckpoint, NewRedisOutput, NewRedisInput, SetOutput/SetChannel, Run) and
+// therefore the real RedisInput.Run loop (fetchInput, syncMeta, pSync, syncData,
 // readChannel, sendOutput, 2 s back-off, 1 s ACK ticker) with a real channel (disk
 // store or memory), the real RedisOutput writing to the redisd target, and the
 // sourced replication-source double. Everything runs on the bubble's virtual clock.
@@ -82,8 +83,7 @@ type c06Obs struct {
 }
 
 type c06Tool struct {
-	ri    *RedisInput
-	ro    *RedisOutput
+	sy    *syncer
 	done  chan error
 	ended bool
 	err   error
@@ -104,10 +104,11 @@ type c06Env struct {
 	t0       time.Time
 	base     int // target requests issued while preparing the initial state
 	marks    []string
-	exits    []string // Run() returned by itself: error texts
-	bootErrs []string
+	exits    []string // RunLeader() returned by itself: error texts
 	applied0 *c06Pos // initial true position of the target
 	stuck    string
+	prefill  func(ch Channel) error
+	prepErr  error
 }
 
 type c06Pos struct {
@@ -126,36 +127,49 @@ func c06RedisCfg(addr string) config.RedisConfig {
 	return config.RedisConfig{Addresses: []string{addr}, Type: config.RedisTypeStandalone, Otype: config.RedisTypeStandalone, Version: "7.2.0"}
 }
 
-func c06OutputCfg(runID string) RedisOutputConfig {
-	return RedisOutputConfig{
-		InputName:                  c06SrcAddr,
-		CheckpointName:             config.CheckpointKey,
-		RunId:                      runID,
-		CanTransaction:             true,
-		Redis:                      c06RedisCfg(c06TgtAddr),
-		EnableResumeFromBreakPoint: true,
-		KeyExists:                  "replace",
-		TargetDb:                   -1,
-		BatchCmdCount:              64,
-		BatchTicker:                100 * time.Millisecond,
-		BatchBufferSize:            1 << 20,
-		KeepaliveTicker:            time.Hour,
-		ReplayRdbParallel:          1,
-		ReplayRdbEnableRestore:     false,
-		UpdateCheckpointTicker:     time.Hour,
-		Stats:                      config.OutputStats{DisableLog: true},
+// c06GlobalConfig fills the process-wide configuration the code under test reads
+// (what the YAML loader would have produced): transactional checkpoints, resume from
+// break point, no RESTORE (snapshot keys are replayed as plain SETs).
+func c06GlobalConfig() error {
+	gc := config.GetSyncerConfig()
+	rc := c06RedisCfg(c06SrcAddr)
+	gc.Input = &config.InputConfig{Redis: &rc}
+	if err := config.VerifFixInput(gc.Input); err != nil {
+		return err
 	}
+	// VerifyCrc stays at its default; with true Storer.GetReader self-deadlocks (reported separately)
+	gc.Channel = &config.ChannelConfig{VerifyCrc: false}
+	gc.Server.ListenPort = 18001
+	yes, no := true, false
+	tc := c06RedisCfg(c06TgtAddr)
+	gc.Output = &config.OutputConfig{Redis: &tc, Replay: config.ReplayConfig{
+		ResumeFromBreakPoint:   &yes,
+		KeyExists:              "replace",
+		TargetDb:               -1,
+		BatchCmdCount:          64,
+		BatchTicker:            100 * time.Millisecond,
+		BatchBufferSize:        1 << 20,
+		KeepaliveTicker:        time.Hour,
+		ReplayRdbParallel:      1,
+		ReplayRdbEnableRestore: &no,
+		UpdateCheckpointTicker: time.Hour,
+		ReplayTransaction:      &yes,
+		BisyncEnabled:          &no,
+		Stats:                  config.OutputStats{DisableLog: true},
+	}}
+	return nil
+}
+
+func (e *c06Env) syncerConfig() SyncerConfig {
+	cc := config.ChannelConfig{Type: config.ChannelTypeStorer, Storer: &config.StorerConfig{DirPath: e.dir, MaxSize: 0, LogSize: e.scn.LogSize}}
+	if e.scn.Chan == "mem" {
+		cc = config.ChannelConfig{Type: config.ChannelTypeMemory, Memory: &config.MemoryConfig{MaxSize: 0, LogSize: e.scn.LogSize}}
+	}
+	return SyncerConfig{Id: 1, Input: c06RedisCfg(c06SrcAddr), Output: c06RedisCfg(c06TgtAddr), Channel: cc, CanTransaction: true}
 }
 
 func (e *c06Env) mark(format string, a ...interface{}) {
 	e.marks = append(e.marks, fmt.Sprintf("%6dms ", time.Since(e.t0).Milliseconds())+fmt.Sprintf(format, a...))
-}
-
-func (e *c06Env) newChannel() Channel {
-	if e.scn.Chan == "mem" {
-		return NewMemoryChannel(MemoryConf{InputId: c06SrcAddr, MaxSize: 0, LogSize: e.scn.LogSize})
-	}
-	return NewStoreChannel(StorerConf{InputId: c06SrcAddr, Dir: e.dir, MaxSize: 0, LogSize: e.scn.LogSize})
 }
 
 func (e *c06Env) histOf(name string) *sourced.History {
@@ -173,15 +187,9 @@ func (e *c06Env) histOf(name string) *sourced.History {
 // prepare builds the initial triple.
 func (e *c06Env) prepare() error {
 	scn := e.scn
-	// global configuration the code under test reads
-	gc := config.GetSyncerConfig()
-	rc := c06RedisCfg(c06SrcAddr)
-	gc.Input = &config.InputConfig{Redis: &rc}
-	if err := config.VerifFixInput(gc.Input); err != nil {
+	if err := c06GlobalConfig(); err != nil {
 		return err
 	}
-	gc.Channel = &config.ChannelConfig{VerifyCrc: false} // the default; with true GetReader self-deadlocks (reported separately)
-	gc.Server.ListenPort = 18001
 
 	h1 := sourced.NewHistory(1, c06Base)
 	h1.Append(c06OldLen)
@@ -252,20 +260,23 @@ func (e *c06Env) prepare() error {
 	}
 	e.base = e.tgt.NumReqs()
 
-	// cache content, written through the channel's own writers
-	e.ch = e.newChannel()
+	// cache content, written through the channel's own writers. Disk: files found by
+	// the next process start. Memory: the content of the syncer's channel object when
+	// its leader loop is (re)entered.
 	if scn.CacheID != "" {
 		h := e.histOf(scn.CacheID)
 		if h == nil || scn.CacheR > h.NumCmds() || scn.CacheL > scn.CacheR {
 			return fmt.Errorf("inconsistent cache in scenario")
 		}
-		if err := c06FillCache(e.ch, h, scn.CacheSnap, scn.CacheL, scn.CacheR); err != nil {
-			return fmt.Errorf("building the cache: %w", err)
-		}
 		if scn.Chan == "disk" {
-			// a process start finds the files, not the writer's in-memory index
-			e.ch.Close()
-			e.ch = e.newChannel()
+			ch := NewChannel(e.syncerConfig().Channel, c06SrcAddr)
+			err := c06FillCache(ch, h, scn.CacheSnap, scn.CacheL, scn.CacheR)
+			ch.Close()
+			if err != nil {
+				return fmt.Errorf("building the cache: %w", err)
+			}
+		} else {
+			e.prefill = func(ch Channel) error { return c06FillCache(ch, h, scn.CacheSnap, scn.CacheL, scn.CacheR) }
 		}
 	}
 	return nil
@@ -322,45 +333,24 @@ func c06Stored(tgt *redisd.Server) map[string]int64 {
 	return out
 }
 
-// boot is what syncer.newOutput + syncer.runLeader do: read the source's run ids,
-// UpdateCheckpoint on the target, build output and input, start Run.
+// boot starts one incarnation of the tool the way cmd/syncer does: NewSyncer (which
+// creates the channel object) and RunLeader (newOutput: source run ids, start-up
+// UpdateCheckpoint, NewRedisOutput; then NewRedisInput, SetOutput, SetChannel, Run).
 func (e *c06Env) boot() {
 	e.boots++
-	fail := func(err error) {
-		e.bootErrs = append(e.bootErrs, err.Error())
-		e.mark("boot %d failed: %v", e.boots, err)
-		e.tool = nil
+	sy := NewSyncer(e.syncerConfig()).(*syncer)
+	e.ch = sy.channel
+	if e.prefill != nil {
+		f := e.prefill
+		e.prefill = nil
+		if err := f(e.ch); err != nil {
+			e.prepErr = fmt.Errorf("building the cache: %w", err)
+		}
 	}
-	scli, err := client.NewRedis(c06RedisCfg(c06SrcAddr))
-	if err != nil {
-		fail(err)
-		return
-	}
-	id1, id2, err := redis.GetRunIds(scli)
-	scli.Close()
-	if err != nil {
-		fail(err)
-		return
-	}
-	tcli, err := client.NewRedis(c06RedisCfg(c06TgtAddr))
-	if err != nil {
-		fail(err)
-		return
-	}
-	err = checkpoint.UpdateCheckpoint(tcli, config.CheckpointKey, []string{id1, id2})
-	tcli.Close()
-	if err != nil {
-		fail(err)
-		return
-	}
-	ro := NewRedisOutput(c06OutputCfg(id1))
-	ri := NewRedisInput(c06RedisCfg(c06SrcAddr))
-	ri.SetOutput(ro)
-	ri.SetChannel(e.ch)
-	tl := &c06Tool{ri: ri, ro: ro, done: make(chan error, 1)}
-	go func() { tl.done <- ri.Run() }()
+	tl := &c06Tool{sy: sy, done: make(chan error, 1)}
+	go func() { tl.done <- sy.RunLeader() }()
 	e.tool = tl
-	e.mark("boot %d: source ids %s/%s", e.boots, c06Name(id1), c06Name(id2))
+	e.mark("start %d", e.boots)
 }
 
 func (tl *c06Tool) poll() {
@@ -374,13 +364,13 @@ func (tl *c06Tool) poll() {
 	}
 }
 
-// stopTool is a process stop: Stop(), wait for Run to return.
+// stopTool is a process stop: Stop(), wait for RunLeader to return (it closes the channel).
 func (e *c06Env) stopTool() {
 	tl := e.tool
 	if tl == nil {
 		return
 	}
-	tl.ri.Stop()
+	tl.sy.Stop()
 	for i := 0; i < 6 && !tl.ended; i++ {
 		synctest.Wait()
 		tl.poll()
@@ -389,19 +379,16 @@ func (e *c06Env) stopTool() {
 		}
 	}
 	if !tl.ended {
-		e.stuck = "Run() did not return within 30 virtual seconds after Stop()"
+		e.stuck = "RunLeader() did not return within 30 virtual seconds after Stop()"
 	}
 	e.tool = nil
+	e.ch = nil
 }
 
 // restart is a process restart: new objects on the same cache directory and target
 // (a memory cache does not survive it).
 func (e *c06Env) restart(why string) {
 	e.stopTool()
-	if e.ch != nil {
-		e.ch.Close()
-	}
-	e.ch = e.newChannel()
 	e.mark("restart (%s)", why)
 	e.boot()
 }
@@ -426,7 +413,7 @@ func (e *c06Env) settle(d time.Duration) {
 				msg = msg[:300]
 			}
 			e.exits = append(e.exits, msg)
-			e.mark("Run returned: %s", msg)
+			e.mark("RunLeader returned: %s", msg)
 		}
 		time.Sleep(2 * time.Second)
 		e.restart("run loop ended")
@@ -532,18 +519,17 @@ func c06Exec(t *testing.T, scn c06Scenario, scratch string, n int) mc.Result {
 				return
 			}
 		}
-		defer func() {
-			env.stopTool()
-			if env.ch != nil {
-				env.ch.Close()
-			}
-		}()
+		defer env.stopTool()
 		if err := env.prepare(); err != nil {
 			res = mc.Result{Verdict: "machinery", Clause: "prepare: " + err.Error()}
 			return
 		}
 		env.events++ // the initial (re)connection
 		env.boot()
+		if env.prepErr != nil {
+			res = mc.Result{Verdict: "machinery", Clause: "prepare: " + env.prepErr.Error()}
+			return
+		}
 		env.settle(c06Settle)
 		for _, ev := range scn.Events {
 			if err := env.apply(ev); err != nil {
@@ -557,8 +543,11 @@ func c06Exec(t *testing.T, scn c06Scenario, scratch string, n int) mc.Result {
 		env.src.Append(2)
 		env.mark("epilogue: source h%d len %d", env.src.Current().Tag, env.src.Current().NumCmds())
 		env.settle(c06Final)
-		env.stopTool()
 		rec := &c06Record{scn: scn, env: env, psyncs: env.src.PSyncs(), cur: env.src.Current()}
+		// the cache is audited while the tool is still up (stopping closes the channel,
+		// and a memory cache forgets everything then); the environment is quiescent
+		rec.auditCache()
+		env.stopTool()
 		for _, r := range env.tgt.ExecLog() {
 			if r.Seq <= env.base || r.Name() != "set" || len(r.Argv) < 3 {
 				continue
@@ -568,12 +557,15 @@ func c06Exec(t *testing.T, scn c06Scenario, scratch string, n int) mc.Result {
 				rec.items = append(rec.items, c06Item{Seq: r.Seq, Snap: r.Txn == 0, Key: k})
 			}
 		}
-		rec.auditCache()
 		if len(env.tgt.MachineryErrors) > 0 || len(env.src.MachineryErrors) > 0 {
 			res = mc.Result{Verdict: "machinery", Clause: "double: " + strings.Join(append(env.tgt.MachineryErrors, env.src.MachineryErrors...), "; ")}
 			return
 		}
 		res = rec.judge()
+		if os.Getenv("VERIF_C06_DUMP") != "" && res.Verdict == "ok" {
+			b, _ := json.MarshalIndent(rec.describe(nil), "", " ")
+			fmt.Fprintf(os.Stderr, "%s\n", b)
+		}
 	})
 	if msg != "" {
 		if len(msg) > 3000 {
@@ -584,8 +576,8 @@ func c06Exec(t *testing.T, scn c06Scenario, scratch string, n int) mc.Result {
 	return res
 }
 
-// auditCache reads the cache back through the channel's own reader after the tool
-// stopped: what it reports under the current id must be bytes of the current history.
+// auditCache reads the cache back through the channel's own reader once everything is
+// quiescent: what it reports under the current id must be bytes of the current history.
 func (rec *c06Record) auditCache() {
 	e := rec.env
 	ch := e.ch
@@ -732,7 +724,7 @@ func (rec *c06Record) describe(extra map[string]interface{}) map[string]interfac
 		}
 		del = append(del, fmt.Sprintf("#%d %s", it.Seq, s))
 	}
-	d := map[string]interface{}{"psyncs": ps, "delivered": del, "timeline": e.marks, "final": rec.final, "run_exits": e.exits, "boot_errors": e.bootErrs,
+	d := map[string]interface{}{"psyncs": ps, "delivered": del, "timeline": e.marks, "final": rec.final, "run_exits": e.exits,
 		"offsets": fmt.Sprintf("command i occupies [%d+%d*i, +%d)", c06Base, sourced.CmdLen, sourced.CmdLen)}
 	for k, v := range extra {
 		d[k] = v
@@ -909,7 +901,7 @@ func (rec *c06Record) judge() mc.Result {
 	// liveness within the horizon: the source's writes reached the target
 	if applied == nil || applied.N != cur.NumCmds() || !cur.OnLineage(applied.H, applied.N) {
 		kind := "behind"
-		if len(e.exits) > 0 || len(e.bootErrs) > 0 {
+		if len(e.exits) > 0 {
 			kind = "run-loop-ended"
 		}
 		return viol("the target was not brought up to the source's current position within the horizon", "not-caught-up:"+kind, fin)
